@@ -515,6 +515,8 @@ theorem descend_sound (hH : HostOk H) (rw rec : E → Prec → Option E)
       simp only [hx] at h
       obtain ⟨he, ht⟩ := hx1 x1 hx
       split at h
+      · cases h
+      split at h
       · have hg := hrec _ _ _ h
         refine ⟨by rw [hg.1, he, eval_group], fun ha => ?_⟩
         rw [assignable_group] at ha
